@@ -37,6 +37,7 @@ import re as _re
 _LOCALSTRUCT = _re.compile(r"^(\w+)[.\[]")
 _OFF = _re.compile(r"^\((.*)\+#(\d+)\)$")
 _NEVERNULL = {}
+_STRUCTT = _re.compile(r"^(?:const\s+)?(?:struct|union)\s+\w+$")
 _GENLINES = {}
 _PTRCOPY = _re.compile(r"^((?:[A-Za-z_]\w*)(?:(?:->|\.)\w+)+)@\d+$")
 
@@ -181,7 +182,7 @@ class Frame:
 
 
 class APE:
-    def __init__(self, prog, cg, func, bound=1, max_paths=60000, opaque_calls=(), start_env=None, inline=()):
+    def __init__(self, prog, cg, func, bound=1, max_paths=60000, opaque_calls=(), start_env=None, inline=(), call_returns=None):
         self.prog, self.cg, self.f = prog, cg, func
         self.bound = bound
         self._loopcache = {}
@@ -190,6 +191,7 @@ class APE:
         self.paths = []
         self.opaque_calls = set(opaque_calls)
         self.inline = set(inline)     # known functions a rule wants evaluated as part of their caller
+        self.call_returns = dict(call_returns or {})   # callee -> index of the argument its result equals (a contract decided elsewhere)
         self.start_env = start_env or {}
         from .facts import walk as _walk
         self.localnames = set(p["name"] for p in func.params)
@@ -255,6 +257,16 @@ class APE:
             return ("c", n["val"]) if "val" in n else ("s", n["name"])
         if n.get("null") or n0.get("null"):
             return ("c", 0)
+        if k == "DeclRefExpr" and n.get("dk") in ("local", "param") and _STRUCTT.match((n.get("ct") or n.get("t") or "").strip()):
+            # the value of a local struct object: a snapshot of its members (copied member by member when it is assigned,
+            # used to initialise another object, or returned from a helper evaluated in line)
+            key = self._valkey(st, n)
+            if self._is_var_key(key):
+                st.fresh += 1
+                tag = "$%s#%d" % (key, st.fresh)
+                for kk in [kk for kk in st.env if kk.startswith(key + ".")]:
+                    st.env[tag + kk[len(key):]] = st.env[kk]
+                return ("s", tag)
         if k in ("DeclRefExpr", "MemberExpr", "ArraySubscriptExpr") or (k == "UnaryOperator" and n.get("op") == "*"):
             key = self._valkey(st, n)
             if key in st.env:
@@ -585,6 +597,7 @@ class APE:
                                                          k.startswith("*" + key) or k.startswith(key + "["))]:
                 del st.env[k]
         st.env[key] = v
+        self._copy_struct(st, key, v)
         st.events.append(Event("store", node, B.id, key, v))
 
     def _call(self, st, n, B):
@@ -613,6 +626,8 @@ class APE:
         cr = self.cg.const_return(self.unit, callee) if callee else None
         if cr is not None:
             rv = ("c", cr)
+        if callee in self.call_returns and self.call_returns[callee] < len(argv):
+            rv = argv[self.call_returns[callee]]
         cev = Event("call", n, B.id, name, argv, rv)
         st.events.append(cev)
         if not pure:
@@ -772,6 +787,7 @@ class APE:
                                    or kk.startswith(key + ".") or kk.startswith(key + "[")]:
                             del st.env[kk]
                         st.env[key] = v
+                        self._copy_struct(st, key, v)
                         st.events.append(Event("store", n, B.id, key, v))
                     else:
                         st.env.pop(key, None)
@@ -787,6 +803,17 @@ class APE:
                 # the value was chosen in an earlier block; keep it opaque but stable
                 pass
         return None
+
+    def _copy_struct(self, st, key, v):
+        """key := a struct snapshot (see val): its members become key's members."""
+        if v is None or v[0] != "s" or not v[1].startswith("$"):
+            return
+        tag = v[1]
+        for kk in [kk for kk in st.env if kk.startswith(tag + ".")]:
+            st.env[key + kk[len(tag):]] = st.env[kk]
+        m = _LOCALSTRUCT.match(key + ".")
+        if m and self._is_var_key(key):
+            st.lver[key] = st.lver.get(key, 0) + 1
 
     def _init_list(self, st, key, ini, node, B, depth=0):
         if depth > 3:
